@@ -1198,18 +1198,18 @@ func fixedCases() []caseT {
 		{JSON: "items", Kind: "sstruct", Tag: "max=1", Sub: &TypeT{Fields: []FieldT{{JSON: "name", Kind: "string", Tag: "required"}}}},
 	}}
 	return []caseT{
-		{Body: `{"user":{"name":"xy"},"user-id":1}`, T: userT},                      // K05
-		{Body: `{"":{"a":"x"}}`, T: userT},                                            // K05b
-		{Body: `{"tags":["a","b"]}`, T: userT},                                        // K05c
-		{Body: `{"dive":["a","bbbb"]}`, T: userT},                                     // K05c (panic)
-		{Body: `{"items":[{},{}]}`, T: userT},                                         // K05c
+		{Body: `{"user":{"name":"xy"},"user-id":1}`, T: userT},                       // K05
+		{Body: `{"":{"a":"x"}}`, T: userT},                                           // K05b
+		{Body: `{"tags":["a","b"]}`, T: userT},                                       // K05c
+		{Body: `{"dive":["a","bbbb"]}`, T: userT},                                    // K05c (panic)
+		{Body: `{"items":[{},{}]}`, T: userT},                                        // K05c
 		{Body: `{"user":{"name":"xy"},"user-id":1,"a":"q"}`, T: userT, MaxErrors: 1}, // cap
 		{Body: `{}`, T: userT},
 		{Body: `{"a":[[{"b":1}]]}`, T: userT},
 		{Body: `{"email":"x","pass_word":"abcdefg","age":9,"user":{"name":"ab","secret":"s3cr3t"}}`, Named: "FullA", Mode: 1, Redact: []string{"pass_word", "user.secret"}},
 		{Body: `{"email":"x","pass_word":"abcdefg","age":9}`, Named: "FullA", Mode: 1, MaxErrors: 2},
-		{Body: `{"userName":"abc","Owner":{"name":"abc"},"kidsList":[{"name":"abc"},{"name":"abc","secret":"q1_hunter2"}]}`, Named: "FullC", Mode: 1, Redact: []string{"kidsList.1.secret"}}, // K05f
-		{Body: `{"userName":"ab","apiKey":"q2_short","Owner":{"name":"abc"},"rows":[["a"]],"kidsList":[{"name":"abc"}]}`, Named: "FullC", Mode: 1, Redact: []string{"apiKey", "rows.0.0"}},        // K05e
+		{Body: `{"userName":"abc","Owner":{"name":"abc"},"kidsList":[{"name":"abc"},{"name":"abc","secret":"q1_hunter2"}]}`, Named: "FullC", Mode: 1, Redact: []string{"kidsList.1.secret"}},                               // K05f
+		{Body: `{"userName":"ab","apiKey":"q2_short","Owner":{"name":"abc"},"rows":[["a"]],"kidsList":[{"name":"abc"}]}`, Named: "FullC", Mode: 1, Redact: []string{"apiKey", "rows.0.0"}},                                 // K05e
 		{Body: `{"1":"abc","2":{"3":"x"}}`, T: &TypeT{Fields: []FieldT{{JSON: "1", Kind: "string", Tag: "email"}, {JSON: "2", Kind: "struct", Sub: &TypeT{Fields: []FieldT{{JSON: "3", Kind: "string", Tag: "min=2"}}}}}}}, // K05d
 	}
 }
